@@ -111,10 +111,16 @@ func (fx *fnExec) havocTargets(lp *Loop, lf *loopFrame, key string, st *State) b
 	if _, has := lf.pre[key]; !has {
 		lf.pre[key] = h
 	}
-	for _, r := range refs {
-		h = Store(h, r, Fresh(fmt.Sprintf("L%d_%s_row", lp.Ordinal, key), srt.Elem))
+	// objects that existed before the loop and are not named by the frame keep their contents;
+	// the named ones and everything the loop allocates itself are unknown at the loop head
+	nw := Fresh(fmt.Sprintf("L%d_%s", lp.Ordinal, key), srt)
+	r := Fresh("r", IntSort)
+	conds := []*Term{Select(lf.allocPre, r)}
+	for _, d := range refs {
+		conds = append(conds, Neq(r, d))
 	}
-	st.heapSet(key, h)
+	fx.ex.assume(st, Forall([]*Term{r}, Implies(And(conds...), Eq(Select(nw, r), Select(h, r))), Select(nw, r)))
+	st.heapSet(key, nw)
 	return true
 }
 
@@ -133,7 +139,7 @@ func (fx *fnExec) checkLoopFrame(lp *Loop, lf *loopFrame, st *State) {
 		}
 		cur := st.heapGet(k, pre.Sort)
 		r := Fresh("lf_r", IntSort)
-		var conds []*Term
+		conds := []*Term{Select(lf.allocPre, r)}
 		for _, m := range lf.targets[k] {
 			conds = append(conds, Neq(r, m))
 		}
